@@ -164,8 +164,10 @@ def sym_writer(ctx, cfg):
         w = T.TabularDataWriter.from_suffix(path, list(COLS), buffer_size=bs, buffer_type=btype, column_types=types)
         w.initialize()
         pos = 0
-        for ln in parts:
+        for k, ln in enumerate(parts):
             piece = df.iloc[pos:pos + ln]
+            if cfg.get("reorder") and k == len(parts) - 1:
+                piece = piece[["c", "a", "b"]]  # the declared columns, in another order
             if btype == T.TableType.Dicts and bs > 1:
                 recs = piece.to_dict(orient="records")
                 w.append_data(recs[0] if len(recs) == 1 and cfg.get("single_dict") else recs)
@@ -176,6 +178,12 @@ def sym_writer(ctx, cfg):
         back = w.get_associated_reader().read()
     except Unsupported:
         raise
+    except ValueError as ex:
+        if cfg.get("reorder") and parts:
+            # refusing a frame whose columns are not in the declared order is fine; accepting it and
+            # writing the values under other headers is not
+            return PathOutcome([], inputs, None, "legit_exc", note="ValueError(reordered frame refused)")
+        return PathOutcome([], inputs, None, "exc", note="%s:%s" % (type(ex).__name__, str(ex)[:80]))
     except Exception as ex:
         return PathOutcome([], inputs, None, "exc", note="%s:%s" % (type(ex).__name__, str(ex)[:80]))
     props = [("columns", z3.BoolVal(list(back.columns) == COLS)), ("row_count", z3.BoolVal(len(back) == n))]
@@ -215,6 +223,11 @@ def harnesses(tier):
             hs.append(Harness("writer[%s,N=%d]" % (kind, n), dict(n=n, kind=kind), sym_writer, real="writer", functions=fs,
                               bounds=dict(rows=n, appends="every split of the rows into consecutive appends", buffer_size="2..N"), stubs=stubs,
                               assumptions=["CSV/Parquet codecs round-trip values (trusted)"], sample_rate=0.3))
+    for kind in ("csv", "parquet", "buffered_csv"):
+        for n in ((2, 3) if tier == "quick" else (2, 3, 4)):
+            hs.append(Harness("writer[%s,N=%d,last frame with its columns in another order]" % (kind, n), dict(n=n, kind=kind, reorder=True), sym_writer, real="writer", functions=wf[kind] + [T.TabularDataWriter.check_valid_data],
+                              bounds=dict(rows=n), stubs=stubs, assumptions=["a frame whose columns are the declared ones in another order may be refused (ValueError) or written correctly, never written under the wrong headers"], sample_rate=0.3,
+                              validate_exc=False, expect_reach=False))  # on the current tree the text writer refuses every such frame
     hs.append(Harness("writer[csv,N=2,stale file present]", dict(n=2, kind="csv", stale=True), sym_writer, real="writer", functions=wf["csv"], stubs=stubs))
     hs.append(Harness("writer[buffered_dicts_csv,N=3,single dict appends]", dict(n=3, kind="buffered_dicts_csv", single_dict=True), sym_writer, real="writer", functions=wf["buffered_dicts_csv"], stubs=stubs))
     return hs
@@ -352,8 +365,10 @@ def real_writer(cfg, inp):
             w = T.TabularDataWriter.from_suffix(path, list(COLS), buffer_size=bs, buffer_type=btype, column_types=types)
             w.initialize()
             pos = 0
-            for ln in inp["parts"]:
+            for k, ln in enumerate(inp["parts"]):
                 piece = df.iloc[pos:pos + ln]
+                if cfg.get("reorder") and k == len(inp["parts"]) - 1:
+                    piece = piece[["c", "a", "b"]]
                 if btype == T.TableType.Dicts and bs > 1:
                     recs = piece.to_dict(orient="records")
                     w.append_data(recs[0] if len(recs) == 1 and cfg.get("single_dict") else recs)
@@ -362,6 +377,10 @@ def real_writer(cfg, inp):
                 pos += ln
             w.finalize()
             back = w.get_associated_reader().read()
+        except ValueError as ex:
+            if cfg.get("reorder") and inp["parts"]:
+                return dict(exception="ValueError", violation=None)
+            return dict(exception=repr(ex), violation="%s writer raised %r (appends %s, buffer %d)" % (kind, ex, inp["parts"], bs))
         except Exception as ex:
             return dict(exception=repr(ex), violation="%s writer raised %r (appends %s, buffer %d)" % (kind, ex, inp["parts"], bs))
         if n == 0 and ext == ".psms":
